@@ -4,6 +4,7 @@
 -/
 import MF.Model.Expr
 import MF.Spec.Precedence
+import MF.Proofs.TypeBasic
 namespace MF.Expr
 
 /-! ## `Res` -/
@@ -118,6 +119,118 @@ theorem Spells.tok {ts : List Token} {k : TK} (h : cur ts = k) (hk : k ≠ .eof)
 theorem Spells.cast {ts rest : List Token} {ys zs : List Tok'} (h : Spells ts rest ys) (e : ys = zs) :
     Spells ts rest zs := e ▸ h
 
+/-! ## paths, and the token classes of the type model (`MF.TypeP`) seen from here -/
+
+/-- the identifier chain `. n₁ . n₂ …` -/
+def dotToks : List Bytes → List Tok'
+  | [] => []
+  | n :: ns => T .dot :: ⟨.ident, n⟩ :: dotToks ns
+
+theorem pathToks_eq (a : Bytes) (ns : List Bytes) : pathToks (a :: ns) = ⟨.ident, a⟩ :: dotToks ns := by
+  induction ns generalizing a with
+  | nil => rfl
+  | cons b ns ih => simp [pathToks, dotToks, ih b]
+
+theorem symTK_of_find {s : Bytes} {c : TK} (h : symTK s = c) (hc : c ≠ .other) :
+    ∃ p ∈ symTable, B p.1 = s ∧ p.2 = c := by
+  unfold symTK at h
+  cases hf : symTable.find? (fun p => B p.1 == s) with
+  | none => rw [hf] at h; exact absurd h.symm hc
+  | some p =>
+    rw [hf] at h
+    exact ⟨p, List.mem_of_find?_eq_some hf, by simpa using List.find?_some hf, h⟩
+
+theorem tk_dot {k : TokKind} : tk k = .dot ↔ k = K "." := by
+  constructor
+  · intro h
+    cases k with
+    | sym s =>
+      obtain ⟨p, hp, hs, hc⟩ := symTK_of_find (show symTK s = .dot from h) (by decide)
+      have : ∀ p ∈ symTable, p.2 = TK.dot → p.1 = "." := by decide
+      rw [← hs, this p hp hc]; rfl
+    | _ => simp [tk] at h
+  · rintro rfl; decide
+
+theorem ttk_dot {k : TokKind} : TypeP.tk k = .dot ↔ k = K "." := by
+  constructor
+  · intro h
+    cases k with
+    | sym s =>
+      simp only [TypeP.tk, TypeP.symTK] at h
+      cases hf : TypeP.symTable.find? (fun p => B p.1 == s) with
+      | none => rw [hf] at h; cases h
+      | some p =>
+        rw [hf] at h
+        have hm := List.mem_of_find?_eq_some hf
+        have hs : B p.1 = s := by simpa using List.find?_some hf
+        have : ∀ p ∈ TypeP.symTable, p.2 = TypeP.TK.dot → p.1 = "." := by decide
+        rw [← hs, this p hm h]; rfl
+    | _ => simp [TypeP.tk] at h
+  · rintro rfl; decide
+
+theorem tk_ident' {k : TokKind} : tk k = .ident ↔ k = .ident := by
+  constructor
+  · intro h
+    cases k with
+    | sym s =>
+      obtain ⟨p, hp, _, hc⟩ := symTK_of_find (show symTK s = .ident from h) (by decide)
+      have : ∀ p ∈ symTable, p.2 ≠ TK.ident := by decide
+      exact absurd hc (this p hp)
+    | _ => first | rfl | simp [tk] at h
+  · rintro rfl; rfl
+
+/-- the two models read the same token as an identifier / as `.` -/
+theorem tcur_ident {ts : List Token} : TypeP.cur ts = .ident ↔ cur ts = .ident := by
+  cases ts with
+  | nil => simp [TypeP.cur, cur]
+  | cons t ts => simp only [TypeP.cur, cur, TypeP.tk_ident, tk_ident']
+
+theorem tcur_dot {ts : List Token} : TypeP.cur ts = .dot ↔ cur ts = .dot := by
+  cases ts with
+  | nil => simp [TypeP.cur, cur]
+  | cons t ts => simp only [TypeP.cur, cur, ttk_dot, tk_dot]
+
+/-- `simpleName?` of the type model reads the identifier VALUE -/
+theorem simpleName?_eq {t : Token} (h : t.kind = .ident) : TypeP.simpleName? t = simpleNameOf t.asString := by
+  simp [TypeP.simpleName?, simpleNameOf, Token.isIdent, h]
+
+/-- the type of a CAST, unfolded: an identifier that is not a scalar type name, then the loop of `parseIdentOrPath` -/
+theorem castType_succ {f : Nat} {t : Token} {ts : List Token} (hk : t.kind = .ident)
+    (hs : TypeP.lookaheadSimpleType (t :: ts) = false) :
+    castType (f + 1) (t :: ts) =
+      match TypeP.pathLoop f ts with
+      | .ok (ids, rest) => .ok (t.asString :: ids.map (·.name), rest)
+      | .raise => .raise
+      | .outOfFuel => .outOfFuel := by
+  have hc : TypeP.cur (t :: ts) = .ident := by simp [TypeP.cur, TypeP.tk_ident, hk]
+  simp only [castType, hc, hs, Bool.false_eq_true, if_false, TypeP.parseType, Bool.not_false, if_true,
+    TypeP.parseNamedType, TypeP.parseIdentOrPath, TypeP.parseIdent, TypeP.expect, TypeP.hd, List.headD_cons,
+    List.tail_cons, TypeP.Res.bind]
+  cases TypeP.pathLoop f ts with
+  | ok a => obtain ⟨ids, rest⟩ := a; simp [TypeP.Res.bind]
+  | raise => rfl
+  | outOfFuel => rfl
+
+theorem castType_zero (ts : List Token) (hc : TypeP.cur ts = .ident) (hs : TypeP.lookaheadSimpleType ts = false) :
+    castType 0 ts = .outOfFuel := by
+  simp [castType, hc, hs, TypeP.parseType]
+
+/-- whatever else `castType` sees, it does not succeed -/
+theorem castType_ok_inv {f : Nat} {ts : List Token} {ns : List Bytes} {rest : List Token}
+    (h : castType f ts = .ok (ns, rest)) :
+    ∃ t tl, ts = t :: tl ∧ t.kind = .ident ∧ TypeP.lookaheadSimpleType ts = false := by
+  unfold castType at h
+  split at h
+  · rename_i hc
+    obtain ⟨t, tl, rfl, ht⟩ := TypeP.cur_ne_eof hc (by decide)
+    split at h
+    · cases h
+    · rename_i hs
+      exact ⟨t, tl, rfl, TypeP.tk_ident.1 ht, by simpa using hs⟩
+  · cases h
+  · cases h
+  · cases h
+
 /-! ## no yield starts like a call (identifier directly followed by `(`)
 
 Calls are outside the fragment: in a yield an identifier is followed by `(` only inside `[ OFFSET ( … ) ]`, behind the
@@ -182,6 +295,11 @@ theorem yield_not_call : (e : Expr) → startsCall (yield e) = false
   | .sel e n => startsCall_append _ (yield_not_call e) (by decide) (by decide)
   | .index e none i => startsCall_append _ (yield_not_call e) (by decide) (by decide)
   | .index e (some (_, sp)) i => startsCall_append _ (yield_not_call e) (by decide) (by decide)
+  | .caseE .. => startsCall_cons _ (by decide)
+  | .ifE .. => startsCall_cons _ (by decide)
+  | .array .nil => rfl
+  | .array (.cons _ _) => startsCall_cons _ (by decide)
+  | .cast .. => startsCall_cons _ (by decide)
 
 /-- in tokens that read a yield (followed by anything that is not `(`), the token after a leading identifier is
 not `(`: the look-ahead of `parseIndexSpecifier` answers "no keyword" on every plain subscript -/
